@@ -28,11 +28,15 @@ ITEMS = {
     "W": ["use  a::c ;"],
     "V": ["use  y::d ;"],
     "X": ["extern  crate  q ;"],
+    # an item that carries a scoped skip list, and one that uses the macro it names: the list ends
+    # with its item, selected or not
+    "S": ["fn  s( ){ }"],
+    "Q": ["fn  q( ){ qq!( 3,4 ) ; }"],
 }
 # lines written before the item that are not part of its own span (outer attributes)
-PRE = {"V": ["#[cfg(unix)]"]}
+PRE = {"V": ["#[cfg(unix)]"], "S": ["#[rustfmt::skip::macros(qq)]"]}
 SEQS = [["A", "C", "D"], ["E", "B", "C"], ["C"], ["A", "B", "C", "D"], ["D", "C", "A"], ["B", "A"],
-        ["U", "W", "A"], ["V", "U", "W"], ["W", "V", "D"], ["X", "U", "W"]]
+        ["U", "W", "A"], ["V", "U", "W"], ["W", "V", "D"], ["X", "U", "W"], ["S", "Q"], ["A", "S", "Q", "D"]]
 
 
 def build_source(seq, gap):
